@@ -49,6 +49,14 @@ class FixedBUG(TTNTimeEvolution):
         self.state.ensure_root_orth_center(mode=SplitMode.KEEP)
         self.config: FixedBUGConfig
 
+    def reset_to_initial_state(self):
+        """
+        Resets the current state to the initial state with the root as the
+        orthogonality center, as required by the update.
+        """
+        super().reset_to_initial_state()
+        self.state.ensure_root_orth_center(mode=SplitMode.KEEP)
+
     def recursive_update(self):
         """
         Recursively updates the state according to the fixed rank BUG.
